@@ -113,7 +113,8 @@ impl MsgGen {
             if ty == 1 && !allow_ty1 {
                 ty = 7;
             }
-            let msid = if rng.chance(3, 4) { *rng.pick(&MSID_TABLE) } else { rng.u32() };
+            // known table, or a small id (the N-th stream of a session: nothing caps N), or a power of two +- 1, or anything
+            let msid = match rng.below(8) { 0..=3 => *rng.pick(&MSID_TABLE), 4 | 5 => rng.range(2, 70) as u32, 6 => (1u32 << rng.range(1, 31)).wrapping_add(rng.below(3) as u32).wrapping_sub(1), _ => rng.u32() };
             let ts = if rng.chance(3, 4) { *rng.pick(&TS_TABLE) } else { rng.u32() };
             let len = gen_len(rng, cs, lim);
             self.hist.push((ty, msid, ts, len, ts));
